@@ -376,6 +376,12 @@ func (e *Enc) applyContract(fr *Frame, st *State, fc *FuncContract, sig *types.S
 func (e *Enc) havocAll(st *State) {
 	pre := st.clone()
 	e.havocAllRaw(st)
+	e.applyPreserved(pre, st, nil)
+}
+
+// applyPreserved states that the preserved targets have the same contents in st as in pre,
+// except in the heaps named by written (heaps something else than an unbounded-frame call writes).
+func (e *Enc) applyPreserved(pre, st *State, written map[string]bool) {
 	heapBefore := func(n string) (Val, bool) {
 		if h, ok := pre.heaps[n]; ok {
 			return h, true
@@ -384,13 +390,27 @@ func (e *Enc) havocAll(st *State) {
 		return h, ok
 	}
 	for _, pt := range e.preserved {
+		if pt.kind == "map" {
+			// the contents of a preserved map are unchanged
+			for n, nh := range st.heaps {
+				if !(strings.HasPrefix(n, "MD_") || strings.HasPrefix(n, "MV_") || n == "ML") || written[n] {
+					continue
+				}
+				oh, ok := heapBefore(n)
+				if !ok || oh.T == nh.T {
+					continue
+				}
+				e.fact(Eq(Select(nh, pt.loc), Select(oh, pt.loc)))
+			}
+			continue
+		}
 		for _, lf := range e.P.W.Leaves(pt.typ) {
 			if _, isArr := lf.Type.Underlying().(*types.Array); isArr {
 				continue
 			}
 			n := heapNameT(lf.Sort, lf.Type)
 			nh, ok := st.heaps[n]
-			if !ok {
+			if !ok || written[n] {
 				continue
 			}
 			oh, ok := heapBefore(n)
@@ -886,7 +906,14 @@ func (e *Enc) guardAccess(fr *Frame, st *State, addr ssa.Value, write bool, pos 
 				if !ok {
 					return
 				}
-				idx, ts, ok := findField(pt, g.By)
+				var idx []int
+				var ts []types.Type
+				ok = false
+				for _, alt := range strings.Split(g.By, "|") { // alternative mutex field names (Mutex|RWMutex)
+					if idx, ts, ok = findField(pt, alt); ok {
+						break
+					}
+				}
 				if !ok {
 					e.failed = fmt.Errorf("guard: no field %s in %s", g.By, key)
 					return
@@ -1024,7 +1051,13 @@ func (e *Enc) acquireProtected(fr *Frame, st *State, recv ssa.Value, pos token.P
 	key := nt.Obj().Pkg().Path() + "." + nt.Obj().Name()
 	fname := pt.Elem().Underlying().(*types.Struct).Field(fa.Field).Name()
 	for _, pd := range e.P.CS.Protects {
-		if pd.Type != key || pd.Field != fname {
+		match := false
+		for _, alt := range strings.Split(pd.Field, "|") {
+			if alt == fname {
+				match = true
+			}
+		}
+		if pd.Type != key || !match {
 			continue
 		}
 		self, ok := fr.vals[fa.X]
@@ -1050,10 +1083,21 @@ func (e *Enc) acquireProtected(fr *Frame, st *State, recv ssa.Value, pos token.P
 			}
 			e.assume(st, inv)
 		}
-		// rebase old() for the protected ghost state on this path
+		// rebase old() for the protected state on this path
 		for _, tx := range pd.Targets {
 			if call, ok := tx.(*SCall); ok {
 				if id, ok := call.Fun.(*SIdent); ok {
+					if id.Name == "mapc" {
+						for n, h := range st.heaps {
+							if strings.HasPrefix(n, "MD_") || strings.HasPrefix(n, "MV_") || n == "ML" {
+								if st.oldOv == nil {
+									st.oldOv = map[string]Val{}
+								}
+								st.oldOv[n] = h
+							}
+						}
+						continue
+					}
 					name := "G_" + id.Name
 					if h, ok := st.heaps[name]; ok {
 						if st.oldOv == nil {
